@@ -34,6 +34,8 @@ pub struct Rich {
     pub p1: usize,
     /// adaptive-fee pool over p0's mints
     pub pa: usize,
+    /// adaptive pool with another tick spacing, on a tier without delegated fee authority
+    pub pa2: usize,
     pub af_index: u16,
     pub af_pool_authority: Pubkey,
     pub af_delegate: Pubkey,
@@ -72,6 +74,11 @@ pub struct Rich {
 
 fn dynamic(spec: &RichSpec, n: u8) -> bool {
     (spec.dynamic_mask >> (n % 8)) & 1 == 1
+}
+
+fn pm_price(ts2: u16, start_tick: i32) -> u128 {
+    let t = start_tick / ts2 as i32 * ts2 as i32;
+    sqrt_price_from_tick_index(t) + 1
 }
 
 impl Rich {
@@ -116,6 +123,14 @@ impl Rich {
         let ix = w.ix_init_adaptive_fee_tier(cfg, af_index, ts, af_pool_authority, af_delegate, spec.fee_rate.min(60000), &AfConstants::sane(ts));
         w.must("adaptive tier", &ix);
         let pa = w.init_pool_adaptive(cfg, &mx, &my, af_index, ts, af_pool_authority, price, None).expect("adaptive pool");
+        // a second adaptive pool with ANOTHER tick spacing on a permission-less tier that has no delegated fee authority: its initialised
+        // Oracle is "another pool's oracle" for every oracle slot, and its constants are valid for its own spacing only
+        let ts2: u16 = if ts <= 8192 { ts * 2 } else { ts / 2 };
+        let af_index2 = 3000 + ts2;
+        let ix = w.ix_init_adaptive_fee_tier(cfg, af_index2, ts2, Pubkey::default(), Pubkey::default(), 777, &AfConstants::sane(ts2));
+        w.must("second adaptive tier", &ix);
+        let anyone = w.new_signer();
+        let pa2 = w.init_pool_adaptive(cfg, &mx, &mz, af_index2, ts2, anyone, pm_price(ts2, start_tick), None).expect("second adaptive pool");
         // users
         let owner = w.add_user();
         let attacker = w.add_user();
@@ -333,6 +348,7 @@ impl Rich {
             p0,
             p1,
             pa,
+            pa2,
             af_index,
             af_pool_authority,
             af_delegate,
@@ -604,8 +620,14 @@ pub fn catalog(r: &Rich) -> Vec<Entry> {
         k.filter_period += 1;
         v.push(e("set_preset_adaptive_fee_constants", Class::Setting, w.ix_set_preset_adaptive_fee_constants(r.cfg, r.af_index, &k), 2));
     }
-    v.push(e("set_fee_rate_by_delegated_fee_authority", Class::Setting, w.ix_set_fee_rate_by_delegate(r.pa, r.af_delegate, 4321), 2));
-    v.push(e("set_adaptive_fee_constants", Class::Setting, w.ix_set_adaptive_fee_constants(r.pa, Some(31), None, None, None, None, None, None), 3));
+    // accounts: whirlpool, adaptive_fee_tier, delegated_fee_authority / whirlpool, whirlpools_config, oracle, fee_authority
+    v.push(e("set_fee_rate_by_delegated_fee_authority", Class::Setting, w.ix_set_fee_rate_by_delegate(r.pa, r.af_delegate, 4321), 2).fm(r.pa, &[(0, Whirlpool)]));
+    v.push(e("set_adaptive_fee_constants", Class::Setting, w.ix_set_adaptive_fee_constants(r.pa, Some(31), None, None, None, None, None, None), 3).fm(r.pa, &[(0, Whirlpool), (2, Oracle)]));
+    // the same on the pool with the other tick spacing (group size 1 is valid for every pool)
+    v.push(
+        e("set_adaptive_fee_constants(other spacing)", Class::Setting, w.ix_set_adaptive_fee_constants(r.pa2, None, None, None, None, None, Some(1), None), 3)
+            .fm(r.pa2, &[(0, Whirlpool), (2, Oracle)]),
+    );
     {
         // permissioned adaptive pool creation over (mint X, spare mint)
         let m1 = w.pools[r.p0].mint_a.clone();
